@@ -67,6 +67,7 @@ type Path struct {
 	trace    []string // access trace (store ops etc.)
 	curFn    []*ssa.Function
 	gwrites  []string
+	decStr   map[string]*Term // rt string input name -> its parsed 18-decimal raw value term
 	pending  []decision // alternatives discovered on this path (pushed by explorer)
 	alts     [][]decision
 }
